@@ -1,8 +1,8 @@
 use tevec::prelude::*;
 fn main() {
-    for (s, d) in [("2020-01-15 10:11:12", "3mo"), ("2020-01-15 10:11:12", "1mo"), ("2020-05-31 10:11:12", "6mo"), ("2020-05-31 10:11:12", "1y"), ("2020-12-31 23:59:59", "1mo"), ("2020-03-31 00:00:00", "2mo")] {
-        let dt: DateTime = s.parse().unwrap();
-        let td = TimeDelta::parse(d).unwrap();
-        println!("{s} trunc {d} -> {:?}", dt.duration_trunc(td));
+    for v in [vec![None, Some(1)], vec![None, None, Some(1), Some(1), Some(2)], vec![Some(1), Some(1), Some(2), None], vec![Some(1), Some(2)]] {
+        let first: Vec<usize> = v.titer().vsorted_unique_idx(Keep::First).collect();
+        let last: Vec<usize> = v.titer().vsorted_unique_idx(Keep::Last).collect();
+        println!("{:?}: first={:?} last={:?}", v, first, last);
     }
 }
